@@ -4,7 +4,7 @@ and their renderings in the supported frontends.  Used by C04 (CFG), C06 (reachi
 A skeleton is a tuple tree:
   ("s",)                         a simple statement
   ("if", then, else|None)        then/else are lists of skeletons
-  ("while", body)   ("for", body)   ("forin", body)   ("dowhile", body)
+  ("while", body)   ("for", body)   ("forin", body)   ("dowhile", body)   ("whileelse", body, else)
   ("break",) ("continue",) ("return",)
   ("try", body, n_handlers, else|None, finally|None)
   ("switch", [case bodies], default|None)
@@ -23,6 +23,8 @@ def size(sk):
         return 1 + sum(size(x) for x in sk[1]) + sum(size(x) for x in (sk[2] or []))
     if k in LOOPS:
         return 1 + sum(size(x) for x in sk[1])
+    if k == "whileelse":
+        return 1 + sum(size(x) for x in sk[1]) + sum(size(x) for x in sk[2])
     if k == "try":
         return 1 + sum(size(x) for x in sk[1]) + sk[2] + sum(size(x) for x in (sk[3] or [])) + sum(size(x) for x in (sk[4] or []))
     if k == "switch":
@@ -76,6 +78,11 @@ def stmts(n, depth, in_loop, kinds):
         if lk in kinds:
             for b in blocks(m, depth - 1, True, kinds):
                 out.append((lk, b))
+    if "whileelse" in kinds and m >= 2:
+        for a in range(1, m):
+            for b in blocks(a, depth - 1, True, kinds):
+                for e in blocks(m - a, depth - 1, in_loop, kinds):
+                    out.append(("whileelse", b, e))
     if "try" in kinds and m >= 2:
         # body >= 1, handlers h >= 1 (each with a one-statement body counted in h), optional else / finally
         for body_n in range(1, m):
@@ -128,6 +135,9 @@ def features(body):
                 walk(st[2] or [])
             elif st[0] in LOOPS:
                 walk(st[1])
+            elif st[0] == "whileelse":
+                walk(st[1])
+                walk(st[2])
             elif st[0] == "try":
                 walk(st[1])
                 walk(st[3] or [])
@@ -150,7 +160,7 @@ def features(body):
 class Py:
     name = "python"
     ext = ".py"
-    kinds = {"s", "if", "while", "forin", "break", "continue", "return", "try", "switch", "def", "class"}
+    kinds = {"s", "if", "while", "whileelse", "forin", "break", "continue", "return", "try", "switch", "def", "class"}
     fallthrough = False
     switch_break = False
 
@@ -196,6 +206,11 @@ class Py:
             elif k == "forin":
                 lines.append(pad + "for e%d in xs:" % self.uid())
                 self.block(st[1], ind + 1, lines)
+            elif k == "whileelse":
+                lines.append(pad + "while c < %d:" % self.uid())
+                self.block(st[1], ind + 1, lines)
+                lines.append(pad + "else:")
+                self.block(st[2], ind + 1, lines)
             elif k == "try":
                 lines.append(pad + "try:")
                 self.block(st[1], ind + 1, lines)
